@@ -366,3 +366,28 @@ def render(lexemes, rnd=None, seps=(' ',), glue=False):
             out.append(sep)
         out.append(lx)
     return ''.join(out)
+
+
+# ----------------------------------------------------------------------------------- long scripts (stream block boundaries)
+
+_BIG_UNITS = ["insert into notes values (%d, 'first part;\nsecond part');\n",
+              "select a%d /* migration;\nnotes; */ from t;\n",
+              "select %d, $$ body;\nmore; $$;\n",
+              "select \"odd;\nname%d\" from t;\n",
+              "select %d -- c;\n;\n",
+              "select %d, $t$ x;\ny $t$ from u;\n",
+              "select %d, 'it''s;\n''' from v;\n"]
+
+
+def big_script(n_chars, salt=0):
+    """(text, statements): a script of at least n_chars characters made of one-statement units in which EVERY line end lies
+    inside a multi-line token (string, quoted name, dollar-quoted body, block comment) or directly behind a ';' that is
+    itself inside such a token or a comment - whatever block size a reader uses, block boundaries fall inside tokens.
+    `statements` are the units without their final newline."""
+    out, size, k = [], 0, salt
+    while size < n_chars:
+        u = _BIG_UNITS[k % len(_BIG_UNITS)] % k
+        out.append(u)
+        size += len(u)
+        k += 1
+    return ''.join(out), [u[:-1] for u in out]
